@@ -78,6 +78,7 @@ w("37", "C11", "compound query cannot read a file object (read once per operand)
 w("39", "C11", "lazy intersections all filter by the last operand (late-bound generator variable)", {"text": "$.a & $.b & $.c", "doc": {"a": "x", "b": "y", "c": "x"}, "comp": [Q(N("a")), ["&", Q(N("b"))], ["&", Q(N("c"))]]})
 w("40", "C10", "a comparison used as a comparison operand loses its parentheses", {"text": "$[?(@.a == 1) == true]", "docs": [[{"a": 1}, {"a": False}, {"a": True}, {"a": 2}]], "class": "witness"})
 w("40", "C10", "a negated comparison used as a comparison operand loses its grouping", {"text": "$[?(@.a < 2) in [true]]", "docs": [[{"a": 1}, {"a": False}, {"a": True}, {"a": 2}]], "class": "witness"})
+w("41", "C05", "add at index == length refused when the pointer was built from string tokens (from_parts)", {"doc": {"a": [1]}, "ops": [{"op": "add", "path": "/a/1", "value": 2}], "class": "witness", "builder_from_parts": True})
 w("38", "C06", "patch target with a key marker raises KeyError", {"kind": "patch", "ops": [{"op": "remove", "path": "/#a"}], "docs": [{"a": 1}]})
 w("38", "C06", "patch target with an index marker raises ValueError", {"kind": "patch", "ops": [{"op": "add", "path": "/b/#0", "value": 1}], "docs": [{"b": [1, 2]}]})
 
